@@ -334,8 +334,55 @@ pub fn inject(c: &Case) -> Option<Injected> {
         separate_ambiguous(main);
         fault_stmt = Some(s.clone());
     }
+    // In a third of the cases the top-level statement that holds the fault moves to an imported file: the diagnostic
+    // has to name that file. (Definitions stay where they are: what they export and see must not change.)
+    let mut fault_file = "main.asm".to_string();
+    let mut base_ok = base_ok;
+    if let (Some(s), true) = (&fault_stmt, class != Class::UnclosedBlock && class != Class::MissingImport && e.chance(1, 3)) {
+        fn holds(st: &Stmt, target: &Stmt) -> bool {
+            st == target || st.children().iter().any(|b| b.iter().any(|c| holds(c, target)))
+        }
+        let main = prog.main_mut();
+        let first_movable = main.iter().rposition(|st| matches!(st, Stmt::DefineSegment { .. } | Stmt::DefineBank { .. })).map(|i| i + 1).unwrap_or(0);
+        let ti = if class == Class::Redefinition { main.iter().rposition(|st| holds(st, s)) } else { main.iter().position(|st| holds(st, s)) };
+        if let Some(ti) = ti {
+            let movable = ti >= first_movable && matches!(main[ti], Stmt::Instr { .. } | Stmt::Data { .. } | Stmt::Braces(_) | Stmt::Loop { .. } | Stmt::If { .. } | Stmt::MacroCall { .. } | Stmt::Segment { block: Some(_), .. } | Stmt::Label { block: Some(_), .. });
+            // (a redefinition needs both definitions in one file and scope: only when the pair sits inside the moved block)
+            let pair_inside = class != Class::Redefinition || main[ti] != *s;
+            if movable && pair_inside {
+                let moved = main.remove(ti);
+                main.insert(ti, Stmt::Import { args: ImportArgs::All { as_: None }, file: "lib.asm".into(), block: None });
+                separate_ambiguous(main);
+                prog.files.insert("lib.asm".into(), vec![moved]);
+                fault_file = "lib.asm".to_string();
+                // the split program without the fault has to be valid too
+                let mut clean = prog.clone();
+                fn remove_first(body: &mut Vec<Stmt>, target: &Stmt, last: bool) -> bool {
+                    let pos = if last { body.iter().rposition(|x| x == target) } else { body.iter().position(|x| x == target) };
+                    if let Some(i) = pos {
+                        body.remove(i);
+                        return true;
+                    }
+                    for st in body.iter_mut() {
+                        for b in st.children_mut() {
+                            if remove_first(b, target, last) {
+                                return true;
+                            }
+                        }
+                    }
+                    false
+                }
+                let lib = clean.files.get_mut("lib.asm").unwrap();
+                if !remove_first(lib, s, class == Class::Redefinition) {
+                    return None;
+                }
+                let (cp, _) = clean.render();
+                base_ok = base_ok && guarded(|| assemble(&cp, AsmOptions::default())).ok()?.ok();
+            }
+        }
+    }
     let (mut proj, rs) = prog.render();
-    let r = &rs["main.asm"];
+    let r = &rs[fault_file.as_str()];
     let text = r.text.clone();
     let (line, col, fault_text);
     let mut col_max: Option<usize> = None;
@@ -379,9 +426,9 @@ pub fn inject(c: &Case) -> Option<Injected> {
         let mut found = vec![];
         let mut n = 0;
         if class == Class::Redefinition {
-            find_redefinition(prog.main(), s, &mut n, &mut found);
+            find_redefinition(&prog.files[fault_file.as_str()], s, &mut n, &mut found);
         } else {
-            find_stmt(prog.main(), s, &mut n, &mut found);
+            find_stmt(&prog.files[fault_file.as_str()], s, &mut n, &mut found);
         }
         let idx = *found.first()?;
         let (a, bnd) = r.stmt_span(idx)?;
@@ -407,7 +454,7 @@ pub fn inject(c: &Case) -> Option<Injected> {
             }
         }
     }
-    Some(Injected { project: proj, class, file: "main.asm".into(), line, col, col_max, container: point.container, msg_contains: msg, fault_text, base_ok })
+    Some(Injected { project: proj, class, file: fault_file.clone(), line, col, col_max, container: point.container, msg_contains: msg, fault_text, base_ok })
 }
 
 fn located(diags: &[(Option<String>, usize, usize, String)], inj: &Injected) -> bool {
@@ -438,7 +485,8 @@ pub fn prop(c: &Case, log: &mut CaseLog) -> Verdict {
     log.label(format!("class:{:?}", inj.class));
     log.label(format!("class-x-container:{:?}:{}", inj.class, inj.container));
     log.nontrivial = inj.line > 2 || inj.container != "top";
-    let text = inj.project.main_text().to_string();
+    log.label_if(inj.file != "main.asm", "fault-in-imported-file");
+    let text = inj.project.files.iter().map(|(n, t)| format!("--- {} ---\n{}", n, t)).collect::<Vec<_>>().join("\n");
     let describe = |d: &dyn std::fmt::Debug| format!("fault class {:?}: {:?} expected at {}:{}:{:?} (message containing {:?})\n{}\nreported: {:?}", inj.class, inj.fault_text, inj.file, inj.line, inj.col, inj.msg_contains, text, d);
     if !c.cli {
         let a = match guarded(|| assemble(&inj.project, AsmOptions::default())) {
@@ -503,7 +551,7 @@ pub fn strategy(cli: bool) -> impl Strategy<Value = Case> {
 }
 
 pub fn run_check(ctx: &mut Ctx) {
-    ctx.rule = "a valid generator program (scopes, macros, loops, conditionals, segments) + exactly one injected fault of one of 11 classes (undefined symbol/macro/segment, redefinition, illegal addressing form, immediate > 255, branch out of range, macro arity, malformed statement, unclosed block, missing import) at a generated position - semantic faults at live positions only, syntax faults anywhere. oracle: in-process: >= 1 diagnostic and one of them at the injector's file/line(/column) with the class's message; CLI (`mos build -e Short`, listing+symbols on, target pre-populated with sentinels): exit status 1, located diagnostic on stdout, target directory byte- and mtime-identical. non-trivial = fault not on the first two lines or inside a scope/macro/loop/if".into();
+    ctx.rule = "a valid generator program (scopes, macros, loops, conditionals, segments) + exactly one injected fault of one of 11 classes (undefined symbol/macro/segment, redefinition, illegal addressing form, immediate > 255, branch out of range, macro arity, malformed statement, unclosed block, missing import) at a generated position - semantic faults at live positions only, syntax faults anywhere; in a third of the cases the top-level statement holding the fault is moved to an imported file. oracle: in-process: >= 1 diagnostic and one of them at the injector's file/line(/column) with the class's message; CLI (`mos build -e Short`, listing+symbols on, target pre-populated with sentinels): exit status 1, located diagnostic on stdout, target directory byte- and mtime-identical. non-trivial = fault not on the first two lines or inside a scope/macro/loop/if".into();
     let n = ctx.tier.pick(12_000, 300_000);
     ctx.campaign_parallel("in-process", n, 16, || strategy(false), prop, to_json);
     if have_mos() {
@@ -512,6 +560,8 @@ pub fn run_check(ctx: &mut Ctx) {
     } else {
         ctx.health(false, "mos binary not built (MOS_BIN)");
     }
+    let k = ctx.label_count("fault-in-imported-file");
+    ctx.health(k > 0, "no fault inside an imported file");
     for cl in CLASSES {
         let k = ctx.label_count(&format!("class:{:?}", cl));
         ctx.health(k > 0, format!("class {:?} never injected", cl));
